@@ -102,6 +102,10 @@ pub struct Profile {
     pub max_universe: u32,
     /// inject panicking destructors into early-dropped drain_filter iterators (C09)
     pub drop_panics: bool,
+    /// half of the zero-sized configurations use the class with destructors
+    pub zst_drop: bool,
+    /// build half of the zero-sized runs from insert / start-a-resize / operate episodes
+    pub zst_focus: bool,
 }
 
 impl Profile {
@@ -123,6 +127,8 @@ impl Profile {
             end_probe: false,
             max_universe: 4096,
             drop_panics: false,
+            zst_drop: false,
+            zst_focus: false,
         }
     }
 }
@@ -155,7 +161,13 @@ impl<'a> Gen<'a> {
         let elem = match rng.weighted(&prof.elem) {
             0 => ElemClass::Plain,
             1 => ElemClass::Tracked,
-            _ => ElemClass::Zst,
+            _ => {
+                if prof.zst_drop && rng.chance(1, 2) {
+                    ElemClass::ZstDrop
+                } else {
+                    ElemClass::Zst
+                }
+            }
         };
         let mut hashers = |rng: &mut Rng| HasherCfg { seed: rng.next_u64(), mode: HashMode::ALL[rng.weighted(&prof.hashers)] };
         let map_hashers: Vec<HasherCfg> = (0..prof.maps).map(|_| hashers(rng)).collect();
@@ -164,7 +176,7 @@ impl<'a> Gen<'a> {
         let uni_choices: &[u32] = if colliding { &[4, 8, 16, 32, 64] } else { &[4, 8, 16, 32, 64, 128, 256, 1024, 4096] };
         let mut universe = *rng.pick(uni_choices);
         universe = universe.min(prof.max_universe);
-        if elem == ElemClass::Zst {
+        if elem.is_zst() {
             universe = 1;
         }
         let cap0 = |rng: &mut Rng| -> usize {
@@ -621,7 +633,9 @@ impl<'a> Gen<'a> {
             G::SDrainFilter => {
                 let pred = self.pred();
                 self.apply_pred_shadow(s, true, &pred, false);
-                Op::SDrainFilter { s: su, pred, consume: self.consume() }
+                let consume = self.consume();
+                let drop_panic = if matches!(consume, Consume::DropAfter(_)) && self.prof.drop_panics && self.rng.chance(1, 4) { Some(self.rng.range(1, 3) as u32) } else { None };
+                Op::SDrainFilter { s: su, pred, consume, drop_panic }
             }
             G::SIntoIter => {
                 self.shadow.sets[s].clear();
@@ -817,21 +831,57 @@ pub fn generate(rng: &mut Rng, prof: &Profile) -> RunSpec {
             _ => rng.range(10, prof.max_len as u64) as usize,
         }
     };
+    // Zero-sized classes have one possible key: the interesting states (the element in the old
+    // table, an emptied old table, a tombstone) last for a single call. Half of those runs
+    // are built from episodes on one map and one set: insert; start a resize; then the
+    // operations under test.
+    let zst_focus = prof.zst_focus && cfg.elem.is_zst() && rng.chance(1, 2);
+    let mut prof1 = prof.clone();
+    if zst_focus {
+        prof1.maps = prof.maps.min(1);
+        prof1.sets = prof.sets.min(1);
+    }
+    let prof = &prof1;
     let mut g = Gen { rng, prof, cfg, shadow, next_p: 0, ops: Vec::new() };
-    for m in 0..prof.maps {
-        if g.rng.chance(prof.prelude_pct, 100) {
-            g.prelude(false, m);
+    if zst_focus {
+        let is_set_kind = |k: G| (k as u32) >= (G::SInsert as u32) && !matches!(k, G::SerdeMap | G::SerdeSet);
+        while g.ops.len() < len {
+            let on_set = prof.sets > 0 && (prof.maps == 0 || g.rng.chance(1, 3));
+            let op = g.gen_op(if on_set { G::SInsert } else { G::InsertAny });
+            g.ops.push(op);
+            if g.rng.chance(3, 4) {
+                let n = Arg::Abs(*g.rng.pick(&[3usize, 4, 8, 30, 100]));
+                g.ops.push(if on_set { Op::SReserve { s: 0, n } } else { Op::Reserve { m: 0, n } });
+            }
+            for _ in 0..g.rng.range(1, 3) {
+                // a kind of the swarm subset that acts on the same collection
+                let mut k = kinds[g.rng.weighted(&weights)].0;
+                for _ in 0..8 {
+                    if is_set_kind(k) == on_set && !matches!(k, G::SerdeMap | G::SerdeSet) {
+                        break;
+                    }
+                    k = kinds[g.rng.weighted(&weights)].0;
+                }
+                let op = g.gen_op(k);
+                g.ops.push(op);
+            }
         }
-    }
-    for s in 0..prof.sets {
-        if g.rng.chance(prof.prelude_pct, 100) {
-            g.prelude(true, s);
+    } else {
+        for m in 0..prof.maps {
+            if g.rng.chance(prof.prelude_pct, 100) {
+                g.prelude(false, m);
+            }
         }
-    }
-    for _ in 0..len {
-        let k = kinds[g.rng.weighted(&weights)].0;
-        let op = g.gen_op(k);
-        g.ops.push(op);
+        for s in 0..prof.sets {
+            if g.rng.chance(prof.prelude_pct, 100) {
+                g.prelude(true, s);
+            }
+        }
+        for _ in 0..len {
+            let k = kinds[g.rng.weighted(&weights)].0;
+            let op = g.gen_op(k);
+            g.ops.push(op);
+        }
     }
     if prof.end_probe {
         for m in 0..prof.maps {
@@ -1059,7 +1109,7 @@ pub fn generate_c14(rng: &mut Rng) -> RunSpec {
         let victim = rng.below(3) as u8;
         let fb = target[rng.below(target.len() as u64) as usize].0;
         let k = if rng.chance(2, 3) { KeySel::Old(rng.below(16) as u32, fb) } else { KeySel::Kv(fb) };
-        if uni <= 1 || cfg.elem == ElemClass::Zst || rng.chance(1, 2) {
+        if uni <= 1 || cfg.elem.is_zst() || rng.chance(1, 2) {
             ops.push(Op::GetMut { m: victim, k, p: 900_000 });
         } else {
             // same length, same values, one key exchanged for a key nobody holds
